@@ -92,6 +92,45 @@ pub fn field_types(thorough: bool) -> Vec<FT> {
 const FIELD_NAMES: [&str; 8] = ["a", "user_name", "x2", "r#type", "camelCase", "B", "r#match", "the_last_one"];
 const DOCS: [&str; 3] = ["A doc line", "second: (with, punctuation) -> #", "trailing space "];
 
+/// The ways a doc comment can be attached to an item.  Returns the source text and the comments the
+/// derive must report (as Rust expressions), one per doc line.
+const DOC_FORMS: usize = 7;
+fn doc_src(form: usize, lines: &[&str], indent: &str) -> (String, Vec<String>) {
+    let mut src = String::new();
+    let mut expect: Vec<String> = lines.iter().map(|l| format!("{l:?}.trim().to_string()")).collect();
+    if lines.is_empty() {
+        return (src, expect);
+    }
+    match form % DOC_FORMS {
+        // `/// text`
+        0 => lines.iter().for_each(|l| writeln!(src, "{indent}/// {l}").unwrap()),
+        // `#[doc = "text"]`
+        1 => lines.iter().for_each(|l| writeln!(src, "{indent}#[doc = {l:?}]").unwrap()),
+        // a doc attribute without text in front
+        2 => {
+            writeln!(src, "{indent}#[doc(alias = \"al\")]").unwrap();
+            lines.iter().for_each(|l| writeln!(src, "{indent}/// {l}").unwrap());
+        }
+        // ... or after the first line
+        3 => {
+            writeln!(src, "{indent}/// {}", lines[0]).unwrap();
+            writeln!(src, "{indent}#[doc(hidden)]").unwrap();
+            lines[1..].iter().for_each(|l| writeln!(src, "{indent}/// {l}").unwrap());
+        }
+        // other attributes between the lines
+        4 => lines.iter().for_each(|l| writeln!(src, "{indent}#[allow(unused)]\n{indent}/// {l}").unwrap()),
+        // an empty doc line first
+        5 => {
+            writeln!(src, "{indent}///").unwrap();
+            lines.iter().for_each(|l| writeln!(src, "{indent}/// {l}").unwrap());
+            expect.insert(0, "String::new()".into());
+        }
+        // one-line block comments
+        _ => lines.iter().for_each(|l| writeln!(src, "{indent}/** {l} */").unwrap()),
+    }
+    (src, expect)
+}
+
 fn unraw(n: &str) -> &str {
     n.strip_prefix("r#").unwrap_or(n)
 }
@@ -114,25 +153,19 @@ pub fn generate(thorough: bool) -> (String, usize) {
         let lt = fields.iter().any(|f| f.lifetime);
         let g = if lt { "<'a>" } else { "" };
         let type_docs: Vec<&str> = if k % 3 == 0 { vec![DOCS[k % 3], DOCS[(k + 1) % 3]] } else if k % 3 == 1 { vec![DOCS[1]] } else { vec![] };
+        let (type_doc_src, type_doc_expect) = doc_src(k, &type_docs, "");
+        let field_docs: Vec<(String, Vec<String>)> = (0..fields.len()).map(|j| if (j + k) % 2 == 0 { doc_src(k / 2 + j, &[DOCS[(j + k) % 3]], "    ") } else { (String::new(), vec![]) }).collect();
         for (prefix, derive) in [("An", "Type"), ("Cu", "CustomType")] {
-            for d in &type_docs {
-                writeln!(s, "/// {d}").unwrap();
-            }
+            s.push_str(&type_doc_src);
             writeln!(s, "#[derive(zlink_core::introspect::{derive})]\n#[zlink(crate = \"zlink_core\")]\n#[allow(dead_code, non_snake_case)]\npub struct {prefix}{k}{g} {{").unwrap();
             for (j, f) in fields.iter().enumerate() {
-                if (j + k) % 2 == 0 {
-                    writeln!(s, "    /// {}", DOCS[(j + k) % 3]).unwrap();
-                }
+                s.push_str(&field_docs[j].0);
                 writeln!(s, "    pub {}: {},", FIELD_NAMES[j], f.rust).unwrap();
             }
             writeln!(s, "}}").unwrap();
         }
-        let fields_expr: Vec<String> = fields
-            .iter()
-            .enumerate()
-            .map(|(j, f)| format!("RField {{ comments: vec![{}], name: {:?}.into(), ty: {} }}", if (j + k) % 2 == 0 { format!("{:?}.trim().to_string()", DOCS[(j + k) % 3]) } else { String::new() }, unraw(FIELD_NAMES[j]), f.expect))
-            .collect();
-        let docs_expr = type_docs.iter().map(|d| format!("{d:?}.trim().to_string()")).collect::<Vec<_>>().join(", ");
+        let fields_expr: Vec<String> = fields.iter().enumerate().map(|(j, f)| format!("RField {{ comments: vec![{}], name: {:?}.into(), ty: {} }}", field_docs[j].1.join(", "), unraw(FIELD_NAMES[j]), f.expect)).collect();
+        let docs_expr = type_doc_expect.join(", ");
         writeln!(
             s,
             "pub fn case_struct_{k}(sink: &mut Sink<'_>) {{\n    let fields = vec![{}];\n    check_type(sink, \"An{k}\", <An{k} as Type>::TYPE, &RType::Struct(fields.clone()));\n    check_type(sink, \"Cu{k} as Type\", <Cu{k} as Type>::TYPE, &RType::Custom(\"Cu{k}\".into()));\n    check_custom(sink, \"Cu{k}\", <Cu{k} as CustomType>::CUSTOM_TYPE, &RMember {{ comments: vec![{docs_expr}], name: \"Cu{k}\".into(), kind: RKind::TypeStruct(fields) }});\n}}",
@@ -149,21 +182,19 @@ pub fn generate(thorough: bool) -> (String, usize) {
     for e in 0..nenums {
         let nv = 1 + e % 4;
         let vnames = ["Alpha", "beta_gamma", "X9", "lowerCamel"];
+        let (enum_doc_src, enum_doc_expect) = if e % 2 == 0 { doc_src(e / 2 + 1, &[DOCS[e % 3]], "") } else { (String::new(), vec![]) };
+        let var_docs: Vec<(String, Vec<String>)> = (0..nv).map(|v| if (v + e) % 3 == 0 { doc_src(e + v + 2, &[DOCS[(v + e) % 3], DOCS[(v + e + 1) % 3]][..1 + (e / 3) % 2], "    ") } else { (String::new(), vec![]) }).collect();
         for (prefix, derive) in [("EnA", "Type"), ("EnC", "CustomType")] {
-            if e % 2 == 0 {
-                writeln!(s, "/// {}", DOCS[e % 3]).unwrap();
-            }
+            s.push_str(&enum_doc_src);
             writeln!(s, "#[derive(zlink_core::introspect::{derive})]\n#[zlink(crate = \"zlink_core\")]\n#[allow(dead_code, non_camel_case_types)]\npub enum {prefix}{e} {{").unwrap();
             for v in 0..nv {
-                if (v + e) % 3 == 0 {
-                    writeln!(s, "    /// {}", DOCS[(v + e) % 3]).unwrap();
-                }
+                s.push_str(&var_docs[v].0);
                 writeln!(s, "    {},", vnames[v]).unwrap();
             }
             writeln!(s, "}}").unwrap();
         }
-        let vars: Vec<String> = (0..nv).map(|v| format!("RVariant {{ comments: vec![{}], name: {:?}.into() }}", if (v + e) % 3 == 0 { format!("{:?}.trim().to_string()", DOCS[(v + e) % 3]) } else { String::new() }, vnames[v])).collect();
-        let docs_expr = if e % 2 == 0 { format!("{:?}.trim().to_string()", DOCS[e % 3]) } else { String::new() };
+        let vars: Vec<String> = (0..nv).map(|v| format!("RVariant {{ comments: vec![{}], name: {:?}.into() }}", var_docs[v].1.join(", "), vnames[v])).collect();
+        let docs_expr = enum_doc_expect.join(", ");
         writeln!(
             s,
             "pub fn case_enum_{e}(sink: &mut Sink<'_>) {{\n    let vars = vec![{}];\n    check_type(sink, \"EnA{e}\", <EnA{e} as Type>::TYPE, &RType::Enum(vars.clone()));\n    check_type(sink, \"EnC{e} as Type\", <EnC{e} as Type>::TYPE, &RType::Custom(\"EnC{e}\".into()));\n    check_custom(sink, \"EnC{e}\", <EnC{e} as CustomType>::CUSTOM_TYPE, &RMember {{ comments: vec![{docs_expr}], name: \"EnC{e}\".into(), kind: RKind::TypeEnum(vars) }});\n}}",
@@ -184,19 +215,22 @@ pub fn generate(thorough: bool) -> (String, usize) {
         let an = &struct_names[e % struct_names.len()];
         let an_g = if an.1 { "<'static>" } else { "" };
         writeln!(s, "#[derive(zlink_core::introspect::ReplyError)]\n#[zlink(crate = \"zlink_core\")]\n#[allow(dead_code, non_snake_case)]\npub enum Er{e}{g} {{").unwrap();
-        writeln!(s, "    /// {}\n    NotFound,", DOCS[e % 3]).unwrap();
-        writeln!(s, "    Detailed {{\n        /// {}\n        code: {},\n        r#type: {},\n    }},", DOCS[(e + 1) % 3], f1.rust, f2.rust).unwrap();
-        writeln!(s, "    /// {}\n    Wrapped(An{}{an_g}),", DOCS[(e + 2) % 3], an.0).unwrap();
+        let (d_nf, x_nf) = doc_src(e, &[DOCS[e % 3]], "    ");
+        let (d_code, x_code) = doc_src(e + 3, &[DOCS[(e + 1) % 3]], "        ");
+        let (d_wr, x_wr) = doc_src(e + 5, &[DOCS[(e + 2) % 3]], "    ");
+        writeln!(s, "{d_nf}    NotFound,").unwrap();
+        writeln!(s, "    Detailed {{\n{d_code}        code: {},\n        r#type: {},\n    }},", f1.rust, f2.rust).unwrap();
+        writeln!(s, "{d_wr}    Wrapped(An{}{an_g}),", an.0).unwrap();
         writeln!(s, "    Other {{ only: {} }},\n    Plain,\n}}", f3.rust).unwrap();
         writeln!(
             s,
-            "pub fn case_error_{e}(sink: &mut Sink<'_>) {{\n    let wrapped = match lift_type(<An{} as Type>::TYPE) {{ RType::Struct(f) => f, other => {{ sink.fail(\"introspect:harness\", format!(\"{{other:?}}\"), json!({{}})); return; }} }};\n    let expect = vec![\n        RMember {{ comments: vec![{:?}.trim().to_string()], name: \"NotFound\".into(), kind: RKind::Error(vec![]) }},\n        RMember {{ comments: vec![], name: \"Detailed\".into(), kind: RKind::Error(vec![RField {{ comments: vec![{:?}.trim().to_string()], name: \"code\".into(), ty: {} }}, RField {{ comments: vec![], name: \"type\".into(), ty: {} }}]) }},\n        RMember {{ comments: vec![{:?}.trim().to_string()], name: \"Wrapped\".into(), kind: RKind::Error(wrapped) }},\n        RMember {{ comments: vec![], name: \"Other\".into(), kind: RKind::Error(vec![RField {{ comments: vec![], name: \"only\".into(), ty: {} }}]) }},\n        RMember {{ comments: vec![], name: \"Plain\".into(), kind: RKind::Error(vec![]) }},\n    ];\n    check_errors(sink, \"Er{e}\", <Er{e} as ReplyError>::VARIANTS, &expect);\n}}",
+            "pub fn case_error_{e}(sink: &mut Sink<'_>) {{\n    let wrapped = match lift_type(<An{} as Type>::TYPE) {{ RType::Struct(f) => f, other => {{ sink.fail(\"introspect:harness\", format!(\"{{other:?}}\"), json!({{}})); return; }} }};\n    let expect = vec![\n        RMember {{ comments: vec![{}], name: \"NotFound\".into(), kind: RKind::Error(vec![]) }},\n        RMember {{ comments: vec![], name: \"Detailed\".into(), kind: RKind::Error(vec![RField {{ comments: vec![{}], name: \"code\".into(), ty: {} }}, RField {{ comments: vec![], name: \"type\".into(), ty: {} }}]) }},\n        RMember {{ comments: vec![{}], name: \"Wrapped\".into(), kind: RKind::Error(wrapped) }},\n        RMember {{ comments: vec![], name: \"Other\".into(), kind: RKind::Error(vec![RField {{ comments: vec![], name: \"only\".into(), ty: {} }}]) }},\n        RMember {{ comments: vec![], name: \"Plain\".into(), kind: RKind::Error(vec![]) }},\n    ];\n    check_errors(sink, \"Er{e}\", <Er{e} as ReplyError>::VARIANTS, &expect);\n}}",
             an.0,
-            DOCS[e % 3],
-            DOCS[(e + 1) % 3],
+            x_nf.join(", "),
+            x_code.join(", "),
             f1.expect,
             f2.expect,
-            DOCS[(e + 2) % 3],
+            x_wr.join(", "),
             f3.expect
         )
         .unwrap();
@@ -217,6 +251,20 @@ pub fn generate(thorough: bool) -> (String, usize) {
         .unwrap();
         cases.push(format!("case_interface_{f}"));
     }
+    // doc comments that span several lines in one attribute (block comments, multi-line strings):
+    // each line is one comment line of the description, so that the rendered interface parses back
+    writeln!(
+        s,
+        "/** first line\n second line */\n#[derive(zlink_core::introspect::CustomType)]\n#[zlink(crate = \"zlink_core\")]\n#[allow(dead_code)]\npub struct BlockDoc {{\n    /** on a field,\n        two lines */\n    pub x: u8,\n    #[doc = \"string with\\na line break\"]\n    pub y: bool,\n}}\n/// e\n#[derive(zlink_core::introspect::CustomType)]\n#[zlink(crate = \"zlink_core\")]\n#[allow(dead_code)]\npub enum BlockDocEnum {{\n    Only,\n}}"
+    )
+    .unwrap();
+    writeln!(
+        s,
+        "pub fn case_blockdoc(sink: &mut Sink<'_>) {{\n    let fields = vec![RField {{ comments: vec![\"on a field,\".into(), \"two lines\".into()], name: \"x\".into(), ty: RType::Int }}, RField {{ comments: vec![\"string with\".into(), \"a line break\".into()], name: \"y\".into(), ty: RType::Bool }}];\n    check_custom(sink, \"BlockDoc\", <BlockDoc as CustomType>::CUSTOM_TYPE, &RMember {{ comments: vec![\"first line\".into(), \"second line\".into()], name: \"BlockDoc\".into(), kind: RKind::TypeStruct(fields) }});\n    static TYPES: &[&idl::CustomType<'static>] = &[<BlockDoc as CustomType>::CUSTOM_TYPE, <BlockDocEnum as CustomType>::CUSTOM_TYPE];\n    let iface = idl::Interface::new(\"org.c.BlockDoc\", &[], TYPES, &[], &[]);\n    check_interface(sink, \"BlockDoc\", &iface);\n}}"
+    )
+    .unwrap();
+    cases.push("case_blockdoc".into());
+    n_types += 2;
     writeln!(s, "pub const CASES: &[fn(&mut Sink<'_>)] = &[{}];", cases.join(", ")).unwrap();
     writeln!(s, "pub const N_TYPES: usize = {n_types};").unwrap();
     (s, n_types)
